@@ -83,7 +83,8 @@ impl Directive for Align
 				return Err(ErrorLevel::Trivial);
 			},
 		};
-		let off = active.curr_addr() % len;
+		// the cursor as a 64-bit value: `curr_addr` saturates once the segment reaches the end of the address space
+		let off = ((u64::from(active.base_addr()) + active.len() as u64) % u64::from(len)) as u32;
 		if off != 0
 		{
 			match usize::try_from(len - off)
